@@ -126,7 +126,15 @@ def analyze_cell(cell: Cell, budget_s: float, path_timeout: float = 90.0) -> dic
                 cexs.append({"label": k + ": " + m[:200], "inputs": named, "model_labels": [str(x)[:200] for x in cell.fail_labels[:3]]})
         return {**out, "status": R.REFUTED, "counterexamples": cexs, "detail": res["messages"][0][1][:300]}
     if "PRE_UNSAT" in kinds:
-        return {**out, "status": R.HARNESS_ERROR, "detail": "precondition unsatisfiable / no path completed: " + str(res["messages"])[:300]}
+        # CrossHair says this both for an unsatisfiable precondition and when every path timed out.  The largest values of the
+        # ranges are a concrete witness of satisfiability: with it, "no path completed" is a time-out (inconclusive), not a vacuous harness
+        try:
+            sat = bool(cell.pre(*([cell.defaults[x] for x in cell.names] + [cell.spec.resolution])))
+        except Exception:  # noqa: BLE001
+            sat = False
+        if sat:
+            return {**out, "status": R.INCONCLUSIVE, "detail": "no path completed within the per-path time limit (precondition is satisfiable: witness = largest values)"}
+        return {**out, "status": R.HARNESS_ERROR, "detail": "precondition unsatisfiable: " + str(res["messages"])[:300]}
     if res["exhausted"] and res["cx_status"] == "CONFIRMED":
         return {**out, "status": R.DISCHARGED, "detail": f"path tree exhausted, CONFIRMED, {res['iterations']} paths"}
     return {**out, "status": R.EXPLORED, "detail": f"not exhausted: crosshair status {res['cx_status']}, {res['iterations']} paths in {res['wall_s']} s"}
